@@ -225,6 +225,23 @@ pub fn document(rng: &mut Rng) -> Doc {
             r.het = false;
         }
     }
+    // now and then the rows of the models are not grouped but taken in turn (1, 2, 1, 2, ...): a row belongs to the model it names
+    if cols.model && rng.chance(1, 6) {
+        let mut groups: Vec<(Option<usize>, std::collections::VecDeque<Row>)> = Vec::new();
+        for r in rows.drain(..) {
+            match groups.iter_mut().find(|g| g.0 == r.model) {
+                Some(g) => g.1.push_back(r),
+                None => groups.push((r.model, std::collections::VecDeque::from(vec![r]))),
+            }
+        }
+        while groups.iter().any(|g| !g.1.is_empty()) {
+            for g in groups.iter_mut() {
+                if let Some(r) = g.1.pop_front() {
+                    rows.push(r);
+                }
+            }
+        }
+    }
     let meta = rng.chance(2, 3);
     let sym = if meta && rng.chance(3, 4) { Some(1 + rng.below(230)) } else { None };
     let sym_hall = rng.chance(1, 4);
@@ -445,6 +462,9 @@ fn foreign_block(rng: &mut Rng, e: &mut Emit, in_frame: bool) {
                 "symmetry.pdbx_full_space_group_name_H-M",
                 "atom_sites.entry_id",
                 "atom_sites.fract_transf_matrix[1][1]",
+                // dictionary items whose names begin like the matrix items the reader looks for
+                "atom_sites.Cartn_transform_axes",
+                "atom_sites.fract_transf_vector[1]",
                 "database_PDB_matrix.entry_id",
                 "struct_ncs_ens.id",
                 "exptl.method",
